@@ -103,7 +103,7 @@ func ruleIdentityHeaderSet(c *Ctx) {
 			if constant.StringVal(k.Value) != identityHeaderName(p) {
 				return
 			}
-			m := cc.StaticCallee().Name()
+			m := baseFuncName(cc.StaticCallee())
 			if m == "Get" {
 				return
 			}
@@ -147,13 +147,13 @@ func ruleModeOnSuccess(c *Ctx) {
 			if !ok {
 				return nil
 			}
-			if f.Name() == "mode" {
+			if theProgram.baseFieldName(f) == "mode" {
 				if k, ok := constInt(st.Val); ok && k == rec {
 					found = true
 					return []bool{true}
 				}
 			}
-			if f.Name() == "StatusCode" && s {
+			if theProgram.baseFieldName(f) == "StatusCode" && s {
 				if k, ok := evalInt(st.Val); ok && k >= 400 {
 					bad = ins
 				}
@@ -297,7 +297,7 @@ func ruleScalingListCount(c *Ctx) {
 			}
 			walkDeps(cond, func(x ssa.Value) bool {
 				if f, _, ok := fieldLoad(x); ok {
-					if f.Name() == "ChromaFormatIdc" {
+					if theProgram.baseFieldName(f) == "ChromaFormatIdc" {
 						sawChroma = true
 					} else {
 						onlyChroma = false
@@ -337,7 +337,7 @@ func ruleAscRateViaEscape(c *Ctx) {
 			viaEscape := false
 			walkDeps(st.Val, func(x ssa.Value) bool {
 				if call, ok := x.(*ssa.Call); ok && call.Call.StaticCallee() != nil {
-					switch call.Call.StaticCallee().Name() {
+					switch baseFuncName(call.Call.StaticCallee()) {
 					case "getSampleRate", "parseConfigALS", "ReadInt":
 						viaEscape = true
 					}
@@ -465,13 +465,13 @@ func ruleResetKeyCanonical(c *Ctx) {
 		// the key must be a load of Pattern that is executed after the init() call of that iteration
 		var initCall ssa.Instruction
 		instrs(fn, func(i2 ssa.Instruction) {
-			if cc := callCommon(i2); cc != nil && cc.StaticCallee() != nil && cc.StaticCallee().Name() == "init" {
+			if cc := callCommon(i2); cc != nil && cc.StaticCallee() != nil && baseFuncName(cc.StaticCallee()) == "init" {
 				initCall = i2
 			}
 		})
 		good := false
 		if ld, ok := stripConv(mu.Key).(*ssa.UnOp); ok && ld.Op == token.MUL {
-			if f, _, ok := fieldAddr(ld.X); ok && f.Name() == "Pattern" && initCall != nil && dominatesInstr(initCall, ld) {
+			if f, _, ok := fieldAddr(ld.X); ok && theProgram.baseFieldName(f) == "Pattern" && initCall != nil && dominatesInstr(initCall, ld) {
 				good = true
 			}
 		}
@@ -571,7 +571,7 @@ func ruleMatchWholePrefix(c *Ctx) {
 		n++
 		whole := false
 		for _, a := range cc.Args {
-			if f, _, ok := fieldLoad(stripConv(a)); ok && f.Name() == "prefix" {
+			if f, _, ok := fieldLoad(stripConv(a)); ok && theProgram.baseFieldName(f) == "prefix" {
 				whole = true
 			}
 		}
@@ -592,7 +592,7 @@ func ruleReadErrorEndsPlay(c *Ctx) {
 	c.touched(fname(fn))
 	var recv *ssa.Call
 	instrs(fn, func(ins ssa.Instruction) {
-		if call, ok := ins.(*ssa.Call); ok && call.Call.StaticCallee() != nil && call.Call.StaticCallee().Name() == "receive" && call.Parent() == fn {
+		if call, ok := ins.(*ssa.Call); ok && call.Call.StaticCallee() != nil && baseFuncName(call.Call.StaticCallee()) == "receive" && call.Parent() == fn {
 			recv = call
 		}
 	})
